@@ -2,7 +2,8 @@
 Code: ncclient/transport/parser.py DefaultXMLParser.parse/_parse10/_parse11, session.py Session.run, the three
 _transport_read primitives.  Model: coq/Model/Framing10.v, Framing11.v, Utf8.v; reference automata and encoders:
 coq/Spec/RefFraming.v; theorems: coq/Props/C01.v; runner protocol: coq/Glue/FramingGlue.v.
-Harness: tools/harness/framing.py (ParserRig, oracle10/oracle11, generators, SessionRig)."""
+Harness: tools/harness/framing.py (ParserRig, oracle10/oracle11, generators, SessionRig); tools/harness/c01_peers.py (scripted
+servers behind the real TLS / SSH / Unix transports, recording session subclasses)."""
 import os, json, glob, itertools
 
 ID = 'C01'
@@ -18,20 +19,48 @@ RULE = ('Parser level: (message list, chunking (1.1), segmentation) triples, bot
         'position / pending chunk octets), on the reference automaton (streams <= 3000 octets), and judged by the property '
         'oracle: delivered == sent (1.0: stripped), once, in order, each during the segment that carries the last octet of '
         'its terminator (not earlier, not later), no exception. Session level: the real UnixSocketSession worker thread over a '
-        'socketpair, oracle only. Also: constant/shape tie read from the source files with ast, and the model of '
+        'socketpair, oracle only. Peer level (all three transports; quick 16+16+8 connections, thorough 300+300+80): a scripted server '
+        'behind the REAL transport - TLSSession.connect to an ssl server on 127.0.0.1 (own CA), SSHSession.connect(sock=) to an '
+        'in-process paramiko server over a socketpair, UnixSocketSession over a socketpair - real hello exchange (server hello '
+        'advertising base:1.1 for 1.1 cases), then the stream of 1-5 XML messages (tiny, ASCII, 2/3/4-byte characters, white space '
+        'around the document element, chunk-header/delimiter look-alikes, multi-read up to 40 kB; 1.1: single/size-1/uniform/random/'
+        'adversarial chunkings) is written in generated pieces (whole, random, size 1, 4096, > 4096 = several reads per TLS record / '
+        'SSH packet, adversarial around delimiters and inside characters, around every terminator) with a pause, nothing, or a wait '
+        'until the client has read everything after each piece; before the last octet of about half of the terminators the server '
+        'waits until everything written was read, then 30 ms, and notes how many messages the listener has. The session class is '
+        'subclassed to record the octets of every _transport_read (histograms peer_read_octets_*), the parser state at the entry of '
+        'the next read and the read during which each message was dispatched. Oracle: listener got exactly the sent texts (1.0: '
+        'stripped), once, in order, with the right root; nothing delivered at a hold; every written octet read within 2 s (no stall); '
+        'octets read == octets written; each dispatch during the read that carried the last octet of its terminator; no errback; '
+        'thread gone after close(). The recorded reads are then fed to the extracted model (feed10/feed11): same deliveries read '
+        'by read and same parser state (1.0 streams above ~8 kB only within a time budget: the extracted 1.0 model is cubic). A '
+        'failing peer case is re-executed 3 times and reported only if it fails every time. Also: constant/shape tie read from the source files with ast, and the model of '
         'str.strip / strict UTF-8 validity against CPython. A case is (base, segment list); distinct = distinct (base, '
         'segments); non-trivial = at least one message and (>= 2 segments or a message in >= 2 chunks).')
 ASSUMES = ['CPython bytes.find/partition/strip, str.strip, bytes.decode("utf-8") and re.match/fullmatch on the two literal patterns '
            'behave as modelled in Model/Utf8.v, Framing10.v, Framing11.v; validated by every case and by the strip/validity micro-suite',
-           'the transport delivers the octets in order (select, kernel / paramiko / OpenSSL); each read returns at most BUF_SIZE octets - '
+           'the transport delivers the octets in order (select, kernel / paramiko / OpenSSL) - exercised, not proved, by the peer level; '
+           'a read returns at most BUF_SIZE octets on SSH/Unix and at most one TLS record (16384) on TLS since the repair of F24 - '
            'the theorems hold for every segment size',
+           'which read boundaries TLS/SSH produce cannot be forced from outside: the peer level records the boundaries that occurred '
+           '(evidence: peer_read_octets_*), the theorems and the parser level cover all of them',
            'listeners are reached through Session._dispatch_message (C14/C03 cover what it does with the text)']
 TRUSTED = ['modelled, not verified: CPython bytes/str/re built-ins used by parser.py',
-           'tools/harness/framing.py: ParserRig stands in for Session (same attributes the parser touches: _buffer, _message_list, _base, parser, _dispatch_message)']
+           'tools/harness/framing.py: ParserRig stands in for Session (same attributes the parser touches: _buffer, _message_list, _base, parser, _dispatch_message)',
+           'tools/harness/c01_peers.py (scripted TLS/SSH/Unix servers, recording subclasses wrapping _transport_read/_dispatch_message/_transport_write), '
+           'tools/harness/c12_peers.py (openssl-CLI certificates, paramiko host key); OpenSSL, paramiko 5.0.0 and the loopback stack are the peers, not verified',
+           'peer-level timing: "not delivered before the terminator" is asserted after the client has read every written octet plus 30 ms; '
+           'stall = a written octet unread after 2 s; deliveries awaited up to 5 s']
 ALLOWED_AXIOMS = []
 
 RE_DELIM = b'\\n(?:#([0-9]+)|(##))\\n'
 RE_PREFIX = b'\\n(?:#(?:[0-9]+|#)?)?'
+# tls.py after the repair of F24: one recv(BUF_SIZE), then whatever OpenSSL still holds of the record it has decrypted
+# (select() does not see those octets); a read is then a whole TLS record, at most 16384 octets (the theorems hold for every size)
+TLS_READ = ('data = self._socket.recv(BUF_SIZE)\n'
+            'while data and self._socket.pending() > 0:\n'
+            '    data += self._socket.recv(BUF_SIZE)\n'
+            'return data')
 REF_MAX = 3000          # reference automaton is quadratic in the extracted model: only streams up to this size
 
 
@@ -63,7 +92,7 @@ def constants(ctx):
     ]
     for fn, attr in (('ssh.py', 'self._channel'), ('tls.py', 'self._socket'), ('unixSocket.py', 'self._socket')):
         items.append((fn + ' BUF_SIZE', sc[fn + '.BUF_SIZE'], 4096))
-        items.append((fn + ' _transport_read body', sc.get(fn + '._transport_read'), 'return %s.recv(BUF_SIZE)' % attr))
+        items.append((fn + ' _transport_read body', sc.get(fn + '._transport_read'), TLS_READ if fn == 'tls.py' else 'return %s.recv(BUF_SIZE)' % attr))
         items.append((fn + ' overrides run', sc.get(fn + '.overrides_run'), False))
         items.append((fn + ' bases', sc.get(fn + '.bases'), ["Name(id='Session', ctx=Load())"]))
     for name, actual, expected in items:
@@ -348,12 +377,132 @@ def session_level(ctx):
                      expected={'callbacks': case['expected'], 'errors_before_close': [], 'worker_alive_after_close': False}, actual=actual)
 
 
+# ---------------------------------------------------------------- 5. real TLS / SSH / Unix peers
+def Q():
+    from harness import c01_peers
+    return c01_peers
+
+
+PEER_WITNESSES = [       # fixed cases run first on every transport: F24 (a piece longer than BUF_SIZE, one TLS record), a hold in both versions
+    dict(base=10, msgs=['<rpc-reply message-id="1"><data>%s</data></rpc-reply>' % ('x\u00e9' * 2100), '<ok/>'], chunks=None, cut='whole', actions='s'),
+    dict(base=11, msgs=['<a>\u00e9\U0001F600</a>', '<rpc-reply message-id="2"><data>%s</data></rpc-reply>' % ('\u20acy' * 1800)],
+         chunks=[[b'<a>\xc3', b'\xa9\xf0\x9f', b'\x98\x80</a>'], None], cut='holds', actions=None),
+    # 1.1 text is delivered intact, white space around the document element included; 1.0 modulo str.strip
+    dict(base=11, msgs=['\n<rpc-reply message-id="1"><ok/></rpc-reply> \n', ' <b>y\u00a0</b>\n\n'], chunks=[[b'\n', b'<rpc-reply message-id="1"><ok/></rpc-reply>', b' \n'], None],
+         cut='holds', actions=None),
+    dict(base=10, msgs=['\n<rpc-reply message-id="1"><ok/></rpc-reply> \n', ' <b>y\u00a0</b>\n\n'], chunks=None, cut='holds', actions=None),
+]
+
+def peer_witness_case(w, kind):
+    f = F()
+    base = w['base']
+    mb = [m.encode('utf-8') for m in w['msgs']]
+    if base == 11:
+        chunked = [c if c is not None else [b] for c, b in zip(w['chunks'], mb)]
+        stream, ends = f.encode11(chunked), f.ends11(chunked)
+    else:
+        stream, ends = f.encode10(mb), f.ends10(mb)
+    if w['cut'] == 'whole':
+        pieces, actions = [stream], w['actions']
+    else:
+        pieces = f.segment(stream, sorted(set([e - 1 for e in ends] + [e for e in ends[:-1]])))
+        actions = ''.join('h' if i % 2 == 0 else 's' for i in range(len(pieces)))
+    return {'level': 'peer', 'transport': kind, 'base': base, 'pieces': [p.hex() for p in pieces], 'actions': actions, 'pause_ms': 1,
+            'expected': [m.strip() if base == 10 else m for m in w['msgs']], 'n_expected': len(mb)}
+
+
+def peer_exec(case, tries=3):
+    """run + judge; a failing case is re-executed `tries` times and reported only if it fails every time"""
+    q = Q()
+    obs = q.run_inbound(case)
+    ok, what, exp, act = q.judge_inbound(case, obs)
+    flaky = None
+    if not ok:
+        for _ in range(tries):
+            obs2 = q.run_inbound(case)
+            ok2, what2, exp2, act2 = q.judge_inbound(case, obs2)
+            if ok2:
+                flaky = what; ok, obs, exp, act, what = True, obs2, exp2, act2, ''
+                break
+    return ok, what, exp, act, obs, flaky
+
+
+def peers_level(ctx):
+    import time
+    q, f, rng, quick = Q(), F(), ctx.rng, ctx.tier == 'quick'
+    res0 = q.resources()
+    t_start = time.time()
+    plan = []                                   # (case, tags)
+    kinds = ('tls', 'ssh', 'unix')
+    for kind in kinds:
+        for w in PEER_WITNESSES:
+            plan.append((peer_witness_case(w, kind), dict(size='witness', piece_kind=w['cut'], mode='witness', holds=0)))
+    per = {'tls': 14, 'ssh': 14, 'unix': 6} if quick else {'tls': 300, 'ssh': 300, 'unix': 80}
+    for kind in kinds:
+        for i in range(per[kind]):
+            size = ['tiny', 'small', 'multi', 'small', 'multi', None][i % 6]
+            plan.append(q.gen_inbound_case(rng, kind, 10 if i % 2 == 0 else 11, size))
+    done = []
+    for case, tags in plan:
+        ok, what, exp, act, obs, flaky = peer_exec(case)
+        kind, base = case['transport'], case['base']
+        if flaky:
+            ctx.note('peer-level case (%s, 1.%d) failed once and passed on re-execution: %s' % (kind, base - 10, flaky))
+        ctx.count({'level': 'peer', 'transport': kind, 'base': base, 'pieces': case['pieces'], 'actions': case['actions']}, nontrivial=True)
+        ctx.hist('level', 'peer_' + kind); ctx.hist('peer_base', '%s/1.%d' % (kind, base - 10))
+        ctx.hist('peer_piece_kind', tags['piece_kind']); ctx.hist('peer_write_mode', tags['mode']); ctx.hist('peer_size_class', tags['size'])
+        ctx.hist('peer_holds_per_case', len(obs['holds']))
+        for ck in tags.get('chunkings', []): ctx.hist('peer_chunking', ck)
+        for r in obs['reads']: ctx.hist('peer_read_octets_' + kind, q.size_bucket(len(r)))
+        ctx.hist('peer_reads_per_case', len(obs['reads']) if len(obs['reads']) < 4 else ('4-9' if len(obs['reads']) < 10 else ('10-99' if len(obs['reads']) < 100 else '100+')))
+        n = sum(len(p) for p in case['pieces']) // 2
+        ctx.hist('peer_stream_octets', '<64' if n < 64 else ('<512' if n < 512 else ('<4096' if n < 4096 else '>=4096')))
+        if ok:
+            ctx.traces += 1
+            done.append((case, obs))
+        else:
+            ctx.fail(case, 'peer level (%s session against a scripted server behind the real transport), base 1.%d: %s' % (
+                     {'tls': 'TLSSession', 'ssh': 'SSHSession', 'unix': 'UnixSocketSession'}[kind], base - 10, what), sig=None, expected=exp, actual=act)
+    # the reads the session really made, fed to the extracted model: same deliveries read by read, same parser state
+    # (the extracted 1.0 model is cubic in the message length - 0.6 s at 8 kB, 4 s at 16 kB, 26 s at 32 kB: long 1.0 streams are fed
+    # to it only up to a budget; every case is still judged by the oracle above)
+    if ctx.model and done:
+        budget, fed = (4.0 if quick else 150.0), []
+        def cost(co):
+            n = sum(len(r) for r in co[1]['reads'])
+            return 0.0 if co[0]['base'] == 11 or n < 3000 else (n / 8000.0) ** 3 * 0.7
+        for co in sorted(done, key=cost):           # cheapest first: as many cases as the budget allows
+            if cost(co) > budget: break
+            budget -= cost(co); fed.append(co)
+        ctx.extra['peer_cases_not_fed_to_model'] = len(done) - len(fed)
+        done = fed
+        outs = ctx.model.batch([[1 if c['base'] == 10 else 2, o['reads']] for c, o in done])
+        for (case, obs), mo in zip(done, outs):
+            recs = q.impl_records(case, obs)
+            mcase = {'base': case['base'], 'segs': [r.hex() for r in obs['reads']], 'via': case['transport']}
+            ctx.count(dict(mcase, level='peer_model'), nontrivial=len(obs['reads']) >= 2)
+            ctx.hist('level', 'peer_model')
+            if recs is None: continue
+            same, why = f.records_equal(mo, recs)
+            if not same:
+                ctx.disagree(mcase, mo, recs, 'model feed%d on the reads made by %s vs the session: %s' % (case['base'], case['transport'], why),
+                             theorem='C01_sim%d' % case['base'])
+    dfd, extra = q.settle_resources(res0)
+    ctx.extra['peer_cases'] = len(plan)
+    ctx.extra['peer_wall_s'] = round(time.time() - t_start, 1)
+    ctx.extra['peer_fd_delta_after_all_cases'] = dfd
+    ctx.extra['peer_threads_left_after_all_cases'] = extra
+    if dfd > 0 or extra:
+        ctx.note('peer level left %d file descriptors / threads %r behind' % (dfd, extra))
+
+
 def run(ctx):
     ctx.exhaustive = False
     parser_level(ctx)          # corpus first (inside)
     constants(ctx)
     micro(ctx)
     session_level(ctx)
+    peers_level(ctx)
     if not ctx.model:
         ctx.note('model runner missing: model comparisons skipped, oracles still ran')
 
@@ -399,6 +548,8 @@ def search(ctx, seeds):
 def reproduce(finding):
     w = finding['witness']
     from vlib import paths; paths.use_repo()
+    if w.get('level') == 'peer':
+        return not peer_exec(w)[0]
     ok = F().judge(w['base'], [bytes.fromhex(h) for h in w['segs']])[0]
     return not ok
 
@@ -407,6 +558,16 @@ def replay(doc):
     if 'case' not in doc:
         return F().replay_obligation(doc, ID)
     c = doc['case']
+    if c.get('level') == 'peer':
+        from vlib import paths; paths.use_repo()
+        ok, what, exp, act, obs, flaky = peer_exec(c)
+        n = sum(len(p) for p in c['pieces']) // 2
+        print('case     : %s peer, base 1.%d, %d octets written in %d pieces, actions %s' % (c['transport'], c['base'] - 10, n, len(c['pieces']), c['actions']))
+        def short(d): return {k: ([x if len(x) < 90 else x[:60] + '...(%d chars)' % len(x) for x in v] if k == 'callbacks' else v) for k, v in d.items()}
+        print('expected :', short(exp))
+        print('actual   :', short(act))
+        if not ok: print('FAILS    :', what)
+        return ok
     if c.get('level') == 'session':
         ok, what, actual = session_judge(c)
         print('case     : session level, base 1.%d, %d segments' % (c['base'] - 10, len(c['segs'])))
